@@ -210,3 +210,55 @@ LEVEL_TEXT["C14"] = ("Lock discipline (held during every pool file access, relea
                      "link-mode safety clauses are proved for the local/link transfer operations with image_lock inlined "
                      "(E1, symbolic timeout); byte-exact copies on real directories, exception injection and forked lock "
                      "holders are exercised by the bounded stand-in (labelled).")
+
+PROPS["C18"].update(
+    modules=["contracts.netconfig"], technique=E1_TECHNIQUE,
+    explanation=PROPS["C18"]["explanation"] + " The allocation step (get_allocatable_address) is additionally proved "
+                "as a contract for all ranges and interface sets: a free, unused address of the range is handed out and "
+                "marked, nothing else changes, IndexError exactly when none is free (E1).",
+    trusted=PROPS["C18"]["trusted"] + ["ipaddress.IPv4Address abstracted by its integer value (round trip assumed)"])
+
+PROPS["C20"].update(
+    modules=["contracts.manu"], technique=E1_TECHNIQUE,
+    explanation=PROPS["C20"]["explanation"] + " The chain step of Manu.run (loop body extracted mechanically) is "
+                "additionally proved: the named step is called once with its prefix, a failing or raising step sets the "
+                "chain verdict to failure, the verdict never recovers, no exception escapes and the chain continues (E1).",
+    trusted=PROPS["C20"]["trusted"] + ["step functions are seams (None, any integer, any Exception)"])
+
+TRAVERSAL_MODULES = ["contracts.c16", "contracts.node_getters", "contracts.node_decisions", "contracts.node_edges",
+                     "contracts.traversal", "contracts.loop_blocks"]
+register(
+    "C01",
+    modules=TRAVERSAL_MODULES,
+    bounded=["checks.bounded_hooks:scan_states"],
+    level="other", technique=E1_TECHNIQUE,
+    explanation="per-function clauses proved: the run decision scans the pools exactly when nobody finished the node and "
+                "runs it when the scan misses a state (default_run_decision), a worker proceeds to a test only when it is "
+                "done with all eligible parents (is_setup_ready exact; loop step: traverse_node only when setup ready), a "
+                "parent is released only after its run decision says it need not run (loop step), shared_result_worker_ids "
+                "names exactly the workers with a PASS result; the scan request and verdict against the pools: bounded; "
+                "the composition over all schedules is not proved (see undecided)",
+    trusted=["the remote door / state back ends behind scan_states (seam)", "pull_locations summary (frame)"],
+    undecided_clauses=["whole-run statement over all interleavings, initial pool populations and failure placements "
+                       "(needs an inductive invariant over the complete graph; sampled by the traversal scenarios)"],
+)
+LEVEL_TEXT["C01"] = ("The decision and bookkeeping functions the property rests on are proved against contracts for all "
+                     "heaps and worker sets (E1); the scan request/verdict and the schedule-level statement are checked "
+                     "on enumerated scenarios (bounded stand-ins, labelled); the whole-run composition is not proved.")
+register(
+    "C08",
+    modules=TRAVERSAL_MODULES,
+    bounded=["checks.bounded_hooks:pull_locations"],
+    level="other", technique=E1_TECHNIQUE,
+    explanation="per-function clauses proved: run / clean decisions and readiness / pick predicates only ever concern the "
+                "worker named in the test (foreign worker => RuntimeError or ignored edge), shared_result_worker_ids names "
+                "exactly the registered workers with a visible PASS result; pull_locations (sources == producers, access "
+                "parameters copied, idempotent, unknown worker rejected): bounded",
+    trusted=["pull_locations is not under an E1 contract (nested loops over dynamic parameter keys)"],
+    undecided_clauses=["restriction matching of workers against vm variants (Cartesian parser, outside /repo)"],
+)
+LEVEL_TEXT["C08"] = ("Worker guards of the decision / pick / readiness functions and the producer set are proved (E1); the "
+                     "location parameters written by pull_locations are compared with the producers over enumerated "
+                     "result lists, edges and worker registrations (bounded stand-in, labelled).")
+for _pid in ("C01", "C08"):
+    NOT_APPLICABLE.pop(_pid, None)
